@@ -47,6 +47,10 @@ def _spell(d, how):
         return f'{PDIR}/{d}'
     if how == 'alias':
         return 'alias_' + d.replace('/', '_')
+    if how == 'dotdot':
+        # /sim/q/lnk_x is a link to the first component of d under the project: `lnk_x/..` is the project directory
+        # (physically), while a textual collapse would look under /sim/q
+        return '/sim/q/lnk_' + d.split('/')[0] + '/../' + d
     return d
 
 
@@ -84,6 +88,11 @@ def build_worlds(case):
         sp = _spell(d, how)
         if how == 'alias':
             links[f'{PDIR}/{sp}'] = f'{PDIR}/{d}'
+        if how == 'dotdot':
+            links['/sim/q/lnk_' + d.split('/')[0]] = f'{PDIR}/' + d.split('/')[0]
+            for rel in progtree.split_files(main):
+                if os.path.dirname(rel) == d:
+                    files[f'/sim/q/{rel}'] = '  .byte $DE, $C3\n'        # decoy where the textual collapse points
         argv_dirs.append(sp)
     for i in sched.get('dups', []):
         if i < len(argv_dirs):
@@ -231,7 +240,7 @@ def gen_sched(rnd, ndirs, trivial=False):
     order = list(range(ndirs))
     rnd.shuffle(order)
     sc = {'set_seed': rnd.randrange(1 << 30), 'order': order,
-          'spell': [rnd.choice(['plain', 'dot', 'slash', 'abs', 'alias']) for _ in range(ndirs)],
+          'spell': [rnd.choice(['plain', 'dot', 'slash', 'abs', 'alias', 'dotdot']) for _ in range(ndirs)],
           'dups': [rnd.randrange(ndirs)] if rnd.random() < 0.3 else []}
     if rnd.random() < 0.25:
         sc['src_dir_again'] = rnd.choice(['dot', 'abs', 'slash'])
